@@ -19,6 +19,7 @@ pub const T_TXT: u16 = 16;
 pub const T_AAAA: u16 = 28;
 pub const C_IN: u16 = 1;
 
+#[cfg(test)]
 pub fn name_from_str(s: &str) -> Name {
     s.split('.').filter(|l| !l.is_empty()).map(|l| l.as_bytes().to_vec()).collect()
 }
@@ -54,10 +55,6 @@ pub fn lower(n: &Name) -> Name {
 /// RFC 1035 2.3.3 / RFC 4343: comparison is case-insensitive for ASCII letters.
 pub fn name_eq_ci(a: &Name, b: &Name) -> bool {
     lower(a) == lower(b)
-}
-
-pub fn wire_len(n: &Name) -> usize {
-    n.iter().map(|l| 1 + l.len()).sum::<usize>() + 1
 }
 
 // ------------------------------------------------------------------ decoding
@@ -129,6 +126,7 @@ pub fn decode_name(pkt: &[u8], at: usize) -> Result<Name, String> {
 }
 
 #[derive(Clone, Debug)]
+#[allow(dead_code)]
 pub struct Hdr {
     pub id: u16,
     pub flags: u16,
@@ -161,6 +159,7 @@ pub struct Q {
 }
 
 #[derive(Clone, Debug)]
+#[allow(dead_code)]
 pub struct RR {
     pub owner: Result<Name, String>,
     pub rtype: u16,
@@ -305,6 +304,46 @@ pub fn reference_addresses(pkt: &[u8], m: &Msg, qname: &Name) -> (Vec<Ip>, usize
     (out, chain)
 }
 
+/// One-line description of a datagram payload as this decoder reads it (for failure messages).
+pub fn describe(pkt: &[u8]) -> String {
+    let Some(m) = decode_msg(pkt) else { return format!("{} bytes, shorter than a DNS header", pkt.len()) };
+    let tn = |t: u16| match t {
+        T_A => "A".to_string(),
+        T_AAAA => "AAAA".to_string(),
+        T_CNAME => "CNAME".to_string(),
+        x => format!("TYPE{}", x),
+    };
+    let nm = |n: &Result<Name, String>| match n {
+        Ok(n) => name_to_string(n),
+        Err(e) => format!("<{}>", e),
+    };
+    let qs: Vec<String> = m.questions.iter().map(|q| format!("{} {}{}", nm(&q.name), tn(q.qtype), if q.qclass != C_IN { format!(" class={}", q.qclass) } else { String::new() })).collect();
+    let rs: Vec<String> = m
+        .answers
+        .iter()
+        .map(|r| {
+            let data = if let Some(a) = rr_addr(pkt, r) {
+                a.to_string()
+            } else if r.rtype == T_CNAME {
+                nm(&decode_name(pkt, r.rdata_off))
+            } else {
+                format!("{} bytes", r.rdlen)
+            };
+            format!("{} {} {}{}", nm(&r.owner), tn(r.rtype), data, if r.class != C_IN { format!(" class={}", r.class) } else { String::new() })
+        })
+        .collect();
+    format!(
+        "id={:#06x} flags={:#06x} qd={} an={} questions=[{}] answers=[{}]{}",
+        m.hdr.id,
+        m.hdr.flags,
+        m.hdr.qd,
+        m.hdr.an,
+        qs.join("; "),
+        rs.join("; "),
+        if m.an_complete { "" } else { " (answer section incomplete/malformed)" }
+    )
+}
+
 // ------------------------------------------------------------------ encoding
 
 /// How a domain name is written into a message.
@@ -330,22 +369,6 @@ pub enum Enc {
     BadType,
     /// labels without the terminating root label
     NoTerminator,
-}
-
-impl Enc {
-    pub fn label(&self) -> Option<&'static str> {
-        match self {
-            Enc::Plain => None,
-            Enc::Compress => Some("ptr:backward"),
-            Enc::Chain => Some("ptr:chain"),
-            Enc::Forward | Enc::LabelThenForward => Some("ptr:forward"),
-            Enc::SelfPtr => Some("ptr:self"),
-            Enc::Loop => Some("ptr:loop"),
-            Enc::OutOfRange => Some("ptr:out-of-range"),
-            Enc::BadType => Some("name:reserved-label-type"),
-            Enc::NoTerminator => Some("name:no-terminator"),
-        }
-    }
 }
 
 enum Fix {
